@@ -8,8 +8,8 @@ import tempfile
 from vplib import common, oracle
 
 LEVEL = "proof"
-RULE = ("Coq: Properties/C09.v (handle_total, responses_in_order, handle_session_layer_no_panic, handle_no_panic_partial, "
-        "skip_nothing_pending_* examples). Dynamic: generated request histories over the whole vocabulary (definitions, lets, "
+RULE = ("Coq: Properties/C09.v (handle_total, responses_in_order, handle_session_layer_no_panic, handle_keeps_discipline, "
+        "handle_no_panic_partial [conditional on evaluator_keeps_discipline], before/after-fix examples). Dynamic: generated request histories over the whole vocabulary (definitions, lets, "
         "expressions that succeed / fail at toplevel / fail inside calls, loops, blocks; eval_up_to, load and interrupt "
         "requests; malformed JSON lines; every REPL command with and without arguments) with commands issued in every "
         "session state (idle, failed at toplevel, failed inside a call, after :abort, after :skip, after :replace, after "
@@ -23,21 +23,28 @@ RULE = ("Coq: Properties/C09.v (handle_total, responses_in_order, handle_session
 META = {
     "technique": "Coq proof on a session model over the evaluator model + differential execution of request histories + "
                  "state-aware history search with delta debugging on the real JSON session",
-    "level_text": ("Coq theorems over the session model (Session.v = evaluator model Machine.v + request handler): every request "
-                   "yields exactly one response and responses come in request order (by construction of the single worker, "
-                   "stated); the session layer itself never panics in ANY state (the only way `handle` answers SessionPanic is "
-                   "an evaluator crash inside `run`); and for programs in the structured core fragment (no for/break/continue/"
-                   "return/closure literals, parser-consistent value_is_used flags) NO reachable state under ANY sequence of "
-                   "Run/:resume/:abort/:skip/:replace/:forget_local/inspection requests answers SessionPanic (value-stack "
-                   "discipline invariant preserved by every step and every command, with the fixed :skip). Everything else "
-                   "of the vocabulary (definitions, tests, eval_up_to, load, interrupt, malformed JSON, the other commands, "
-                   "the rest of the language) is covered by history search on the binary only."),
-    "level_note": ("PARTIAL. Theorem: session-layer no-panic for all states; full no-panic only for the structured fragment "
-                   "named above (handle_no_panic_partial). Search only: for/break/continue/return/closures/methods/structs, "
-                   "definitions and tests, eval_up_to, load, interrupt (asynchronous, answered by the main thread), malformed "
-                   "requests, :type/:test/:load/:namespace/:forget/:doc/:source/:parse/... Trusted: Coq kernel; hand-written "
-                   "models Machine.v and Session.v tied to the code by differential execution; :quit and :trace are outside the "
-                   "checked vocabulary (:quit exits by design, :trace writes non-JSON text to stdout by design)."),
+    "level_text": ("Coq theorems over the session model (Session.v = evaluator model Machine.v + request handler with `eval`'s "
+                   "stop_at_expr_id logic): every request yields exactly one response and, while nothing panicked, the i-th "
+                   "response answers the i-th request (handle_total, responses_in_order); in ANY state the session commands "
+                   "themselves never panic with the repaired :skip -- a SessionPanic can only come from an evaluator crash "
+                   "inside `eval` (handle_session_layer_no_panic); every session command (run overwriting the pending "
+                   "expressions, :resume, :abort, repaired :skip, :replace, :forget_local, inspection, stopping at a call) "
+                   "preserves the value-stack / binding-block discipline `stack_ok` (handle_keeps_discipline), hence no "
+                   "state reachable through such requests answers SessionPanic (handle_no_panic_partial) -- CONDITIONAL on "
+                   "the hypothesis `evaluator_keeps_discipline` (one iteration of the eval loop keeps the discipline and does "
+                   "not crash), which is the machine-level part of C02 and is NOT proved. Examples replay the three session "
+                   "defects on the model before and after the repairs."),
+    "level_note": ("PARTIAL. Proved: totality/order; session-layer no-panic for all states; preservation of the discipline by "
+                   "every modelled command for requests in the structured fragment (wf_request: no for/break/continue/return/"
+                   "closure literal/match, parser-consistent value_is_used flags). NOT proved (explicit hypothesis of "
+                   "handle_no_panic_partial): the evaluator step preserves the discipline. Search only: definitions and "
+                   "tests, eval_up_to, load, interrupt (asynchronous, answered by the main thread), malformed requests, "
+                   ":type/:test/:load/:namespace/:forget/:doc/:source/:parse/..., the rest of the language. Trusted: Coq "
+                   "kernel; hand-written models Machine.v and Session.v tied to the code by differential execution "
+                   "(syntax ids are modelled by source positions; requests where that is ambiguous are skipped); :quit "
+                   "(exits by design) and :trace (writes non-JSON text to stdout by design) are outside the checked "
+                   "vocabulary; the Content-Length framing of `garden json` is not exercised (reftest-json-session shares "
+                   "handle_request, the eval thread and the channel)."),
     "design_ref": "DESIGN.md section 5 C09, section 8 items 10 and 11",
 }
 
@@ -224,13 +231,15 @@ def expected_kinds(r):
     if m == "interrupt":
         return {"interrupted"}
     if m in ("load", "eval_up_to"):
-        return {"evaluate", "interrupted"}
+        return {"evaluate", "interrupted", "malformed_request"}      # malformed: offsets outside the input
     inp = r.get("input", "")
     name = inp.strip().split(" ")[0].lower()
     if inp.startswith(":") or name.startswith(":"):
         if name in (":resume", ":skip", ":replace", ":test"):
             return {"evaluate", "run_command", "malformed_request", "interrupted"}
         return {"run_command"}
+    if "offset" in r or "end_offset" in r:
+        return {"evaluate", "interrupted", "malformed_request"}
     return {"evaluate", "interrupted"}
 
 
@@ -247,7 +256,7 @@ def check_history(exe, history, timeout=60):
     info = {"rc": rc, "requests": len(hist), "responses": len(finals)}
     m = re.search(r"panicked at ([^\n]*)\n([^\n]*)", err)
     if rc != 0 or len(worker) < len(wreqs):
-        where = (m.group(1).rsplit(":", 2)[0] if m else "rc=%d" % rc)
+        where = (m.group(1).split(":")[0] if m else "rc=%d" % rc)
         msg = (m.group(2) if m else err[-200:]).strip()
         slug = re.sub(r"[^A-Za-z0-9]+", "-", msg)[:50].strip("-")
         kind = "timeout" if rc == 124 else "session-died"
@@ -364,10 +373,10 @@ def run(ctx):
     # (b) exhaustive command pairs in the basic states
     pairs = exhaustive_pairs()
     if not ctx.thorough:
-        pairs = rng.sample(pairs, 500)
+        pairs = rng.sample(pairs, 160)
     search(ctx, exe, pairs, "pairs")
     # (c) random state-aware histories
-    n = 6000 if ctx.thorough else 900
+    n = 6000 if ctx.thorough else 260
     hs = [gen_history(rng, i) for i in range(n)]
     search(ctx, exe, hs, "random")
     # (d) correspondence with the model on the modelled part
@@ -431,7 +440,7 @@ def model_correspondence(ctx, exe, rng):
     mdl = ctx.model("session")
     if not mdl:
         return
-    n = 1500 if ctx.thorough else 300
+    n = 1500 if ctx.thorough else 120
     hists = [gen_model_history(rng) for _ in range(n)]
     # the :skip-with-nothing-pending history and friends first
     hists = [[":skip", "1 + 1"], ["let x = nosuch", ":skip", "let z = nosuch", ":skip", "z"], ["1 / 0", ":replace 5", ":replace 5", ":skip"],
